@@ -11,13 +11,18 @@
 (*      the lock, then lock / count / insert-if-absent / unlock,             *)
 (*  (c) accumulation into the thread's OWN accumulator; after the join the   *)
 (*      master reduces all NT accumulators.                                  *)
+(* The whole loop is executed NC times on the same objects ("calls"), each   *)
+(* time with a freely chosen number of ACTIVE threads (the caller may change *)
+(* the number of threads between calls): StartCall clears every accumulator, *)
+(* the reduction always visits all NT slots.  The result of a call must be   *)
+(* the sum over the items of THIS call only.                                 *)
 (* Bug # "none" selects a version with one protection removed; those MUST    *)
 (* violate an invariant (MC_Threads_bug_*.cfg): the model is not vacuous.    *)
 EXTENDS ThreadRules, TLC
-CONSTANTS NT, NI, NK, Bug
-VARIABLES pc, z, incs, rd, cache, lock, row, cnt, ins, next, cur, done, iolock, pos, got, acc, tmp, red, result
+CONSTANTS NT, NI, NK, NC, Bug
+VARIABLES pc, z, incs, rd, cache, lock, row, cnt, ins, next, cur, done, iolock, pos, got, acc, tmp, red, result, call, active
 
-vars == << pc, z, incs, rd, cache, lock, row, cnt, ins, next, cur, done, iolock, pos, got, acc, tmp, red, result >>
+vars == << pc, z, incs, rd, cache, lock, row, cnt, ins, next, cur, done, iolock, pos, got, acc, tmp, red, result, call, active >>
 Thr == 1..NT
 Items == 1..NI
 Keys == 1..NK
@@ -28,7 +33,8 @@ RECURSIVE SumTo(_)
 SumTo(i) == IF i = 0 THEN 0 ELSE Data(i) * Row(KeyOf(i)) + SumTo(i - 1)
 Expected == SumTo(NI)               \* the single-thread result
 
-Init == /\ pc = [t \in Thr |-> "read"] /\ z = ZNew /\ incs = {} /\ rd = [t \in Thr |-> FALSE]
+Init == /\ call = 1 /\ active = NT
+        /\ pc = [t \in Thr |-> "read"] /\ z = ZNew /\ incs = {} /\ rd = [t \in Thr |-> FALSE]
         /\ cache = [k \in Keys |-> 0] /\ lock = [k \in Keys |-> 0] /\ row = [t \in Thr |-> 0] /\ cnt = [t \in Thr |-> 0]
         /\ ins = [k \in Keys |-> 0] /\ next = 1 /\ cur = [t \in Thr |-> 0] /\ done = [i \in Items |-> 0]
         /\ iolock = 0 /\ pos = 0 /\ got = [t \in Thr |-> 0] /\ acc = [t \in Thr |-> 0] /\ tmp = [t \in Thr |-> 0]
@@ -40,56 +46,56 @@ K(t) == KeyOf(cur[t])
 \* ---------------------------------------------------------------- (a) lazy table
 ReadFlag(t) == /\ pc[t] = "read" /\ rd' = [rd EXCEPT ![t] = z.flag]            \* omp atomic read
                /\ Goto(t, IF z.flag THEN "use" ELSE "enter")
-               /\ UNCHANGED << z, incs, cache, lock, row, cnt, ins, next, cur, done, iolock, pos, got, acc, tmp, red, result >>
+               /\ UNCHANGED << z, incs, cache, lock, row, cnt, ins, next, cur, done, iolock, pos, got, acc, tmp, red, result, call, active >>
 EnterCritical(t) == /\ pc[t] = "enter" /\ (Bug = "nocritical" \/ incs = {})     \* omp critical(NAME)
                     /\ incs' = incs \cup {t} /\ Goto(t, "recheck")
-                    /\ UNCHANGED << z, rd, cache, lock, row, cnt, ins, next, cur, done, iolock, pos, got, acc, tmp, red, result >>
+                    /\ UNCHANGED << z, rd, cache, lock, row, cnt, ins, next, cur, done, iolock, pos, got, acc, tmp, red, result, call, active >>
 RecheckFlag(t) == /\ pc[t] = "recheck"
                   /\ Goto(t, IF z.flag THEN "leave" ELSE IF Bug = "flagfirst" THEN "setflag" ELSE "fill1")
-                  /\ UNCHANGED << z, incs, rd, cache, lock, row, cnt, ins, next, cur, done, iolock, pos, got, acc, tmp, red, result >>
+                  /\ UNCHANGED << z, incs, rd, cache, lock, row, cnt, ins, next, cur, done, iolock, pos, got, acc, tmp, red, result, call, active >>
 Fill1(t) == /\ pc[t] = "fill1" /\ z' = ZFillBegin(z) /\ Goto(t, "fill2")
-            /\ UNCHANGED << incs, rd, cache, lock, row, cnt, ins, next, cur, done, iolock, pos, got, acc, tmp, red, result >>
+            /\ UNCHANGED << incs, rd, cache, lock, row, cnt, ins, next, cur, done, iolock, pos, got, acc, tmp, red, result, call, active >>
 Fill2(t) == /\ pc[t] = "fill2" /\ z' = ZFillEnd(z) /\ Goto(t, IF Bug = "flagfirst" THEN "leave" ELSE "setflag")
-            /\ UNCHANGED << incs, rd, cache, lock, row, cnt, ins, next, cur, done, iolock, pos, got, acc, tmp, red, result >>
+            /\ UNCHANGED << incs, rd, cache, lock, row, cnt, ins, next, cur, done, iolock, pos, got, acc, tmp, red, result, call, active >>
 SetFlag(t) == /\ pc[t] = "setflag" /\ z' = ZSetFlag(z) /\ Goto(t, IF Bug = "flagfirst" THEN "fill1" ELSE "leave")   \* omp atomic write
-              /\ UNCHANGED << incs, rd, cache, lock, row, cnt, ins, next, cur, done, iolock, pos, got, acc, tmp, red, result >>
+              /\ UNCHANGED << incs, rd, cache, lock, row, cnt, ins, next, cur, done, iolock, pos, got, acc, tmp, red, result, call, active >>
 LeaveCritical(t) == /\ pc[t] = "leave" /\ incs' = incs \ {t} /\ Goto(t, "use")
-                    /\ UNCHANGED << z, rd, cache, lock, row, cnt, ins, next, cur, done, iolock, pos, got, acc, tmp, red, result >>
+                    /\ UNCHANGED << z, rd, cache, lock, row, cnt, ins, next, cur, done, iolock, pos, got, acc, tmp, red, result, call, active >>
 UseTable(t) == /\ pc[t] = "use" /\ Goto(t, "take")
-               /\ UNCHANGED << z, incs, rd, cache, lock, row, cnt, ins, next, cur, done, iolock, pos, got, acc, tmp, red, result >>
+               /\ UNCHANGED << z, incs, rd, cache, lock, row, cnt, ins, next, cur, done, iolock, pos, got, acc, tmp, red, result, call, active >>
 
 \* ---------------------------------------------------------------- (c) dynamic work distribution
 Take(t) == /\ pc[t] = "take"
            /\ IF next <= NI THEN /\ cur' = [cur EXCEPT ![t] = next] /\ next' = next + 1 /\ Goto(t, "seek")
               ELSE /\ UNCHANGED << cur, next >> /\ Goto(t, "idle")
-           /\ UNCHANGED << z, incs, rd, cache, lock, row, cnt, ins, done, iolock, pos, got, acc, tmp, red, result >>
+           /\ UNCHANGED << z, incs, rd, cache, lock, row, cnt, ins, done, iolock, pos, got, acc, tmp, red, result, call, active >>
 
 \* ---------------------------------------------------------------- (d) stream I/O: seek, then read
 Seek(t) == /\ pc[t] = "seek" /\ (Bug = "noiolock" \/ iolock = 0)              \* omp critical(PROJDATAFROMSTREAMIO)
            /\ iolock' = (IF Bug = "noiolock" THEN 0 ELSE t) /\ pos' = cur[t] /\ Goto(t, "readio")
-           /\ UNCHANGED << z, incs, rd, cache, lock, row, cnt, ins, next, cur, done, got, acc, tmp, red, result >>
+           /\ UNCHANGED << z, incs, rd, cache, lock, row, cnt, ins, next, cur, done, got, acc, tmp, red, result, call, active >>
 ReadIO(t) == /\ pc[t] = "readio" /\ got' = [got EXCEPT ![t] = Data(pos)] /\ iolock' = 0 /\ Goto(t, "lockL")
-             /\ UNCHANGED << z, incs, rd, cache, lock, row, cnt, ins, next, cur, done, pos, acc, tmp, red, result >>
+             /\ UNCHANGED << z, incs, rd, cache, lock, row, cnt, ins, next, cur, done, pos, acc, tmp, red, result, call, active >>
 
 \* ---------------------------------------------------------------- (b) row cache
 LockLookup(t) == /\ pc[t] = "lockL" /\ lock[K(t)] = 0 /\ lock' = [lock EXCEPT ![K(t)] = t] /\ Goto(t, "find")  \* omp_set_lock
-                 /\ UNCHANGED << z, incs, rd, cache, row, cnt, ins, next, cur, done, iolock, pos, got, acc, tmp, red, result >>
+                 /\ UNCHANGED << z, incs, rd, cache, row, cnt, ins, next, cur, done, iolock, pos, got, acc, tmp, red, result, call, active >>
 Find(t) == /\ pc[t] = "find" /\ lock' = [lock EXCEPT ![K(t)] = 0]
            /\ IF cache[K(t)] # 0 THEN /\ row' = [row EXCEPT ![t] = cache[K(t)]] /\ Goto(t, "acc")
               ELSE /\ UNCHANGED row /\ Goto(t, "compute")
-           /\ UNCHANGED << z, incs, rd, cache, cnt, ins, next, cur, done, iolock, pos, got, acc, tmp, red, result >>
+           /\ UNCHANGED << z, incs, rd, cache, cnt, ins, next, cur, done, iolock, pos, got, acc, tmp, red, result, call, active >>
 Compute(t) == /\ pc[t] = "compute" /\ row' = [row EXCEPT ![t] = Row(K(t))] /\ Goto(t, "lockI")   \* outside the lock
-              /\ UNCHANGED << z, incs, rd, cache, lock, cnt, ins, next, cur, done, iolock, pos, got, acc, tmp, red, result >>
+              /\ UNCHANGED << z, incs, rd, cache, lock, cnt, ins, next, cur, done, iolock, pos, got, acc, tmp, red, result, call, active >>
 LockInsert(t) == /\ pc[t] = "lockI" /\ (Bug = "nolock" \/ lock[K(t)] = 0)
                  /\ lock' = (IF Bug = "nolock" THEN lock ELSE [lock EXCEPT ![K(t)] = t]) /\ Goto(t, "count")
-                 /\ UNCHANGED << z, incs, rd, cache, row, cnt, ins, next, cur, done, iolock, pos, got, acc, tmp, red, result >>
+                 /\ UNCHANGED << z, incs, rd, cache, row, cnt, ins, next, cur, done, iolock, pos, got, acc, tmp, red, result, call, active >>
 Count(t) == /\ pc[t] = "count" /\ cnt' = [cnt EXCEPT ![t] = IF cache[K(t)] # 0 THEN 1 ELSE 0] /\ Goto(t, "insert")
-            /\ UNCHANGED << z, incs, rd, cache, lock, row, ins, next, cur, done, iolock, pos, got, acc, tmp, red, result >>
+            /\ UNCHANGED << z, incs, rd, cache, lock, row, ins, next, cur, done, iolock, pos, got, acc, tmp, red, result, call, active >>
 Insert(t) == /\ pc[t] = "insert"
              /\ cache' = (IF cache[K(t)] = 0 THEN [cache EXCEPT ![K(t)] = row[t]] ELSE cache)    \* no-op if present
              /\ ins' = (IF cnt[t] = 0 THEN [ins EXCEPT ![K(t)] = @ + 1] ELSE ins)              \* inserts that believed to be effective
              /\ lock' = (IF Bug = "nolock" THEN lock ELSE [lock EXCEPT ![K(t)] = 0]) /\ Goto(t, "acc")
-             /\ UNCHANGED << z, incs, rd, row, cnt, next, cur, done, iolock, pos, got, tmp, acc, red, result >>
+             /\ UNCHANGED << z, incs, rd, row, cnt, next, cur, done, iolock, pos, got, tmp, acc, red, result, call, active >>
 
 \* ---------------------------------------------------------------- (c) per-thread accumulators, reduction
 Slot(t) == IF Bug = "sharedacc" THEN 1 ELSE t
@@ -98,25 +104,36 @@ Accumulate(t) == /\ pc[t] = "acc"
                     THEN /\ tmp' = [tmp EXCEPT ![t] = acc[1]] /\ Goto(t, "acc2") /\ UNCHANGED << acc, done >>    \* read ... (not atomic)
                     ELSE /\ acc' = [acc EXCEPT ![t] = @ + got[t] * row[t]] /\ done' = [done EXCEPT ![cur[t]] = @ + 1]
                          /\ Goto(t, "take") /\ UNCHANGED tmp
-                 /\ UNCHANGED << z, incs, rd, cache, lock, row, cnt, ins, next, cur, iolock, pos, got, red, result >>
+                 /\ UNCHANGED << z, incs, rd, cache, lock, row, cnt, ins, next, cur, iolock, pos, got, red, result, call, active >>
 Accumulate2(t) == /\ pc[t] = "acc2" /\ acc' = [acc EXCEPT ![1] = tmp[t] + got[t] * row[t]]                      \* ... modify, write
                   /\ done' = [done EXCEPT ![cur[t]] = @ + 1] /\ Goto(t, "take")
-                  /\ UNCHANGED << z, incs, rd, cache, lock, row, cnt, ins, next, cur, iolock, pos, got, tmp, red, result >>
+                  /\ UNCHANGED << z, incs, rd, cache, lock, row, cnt, ins, next, cur, iolock, pos, got, tmp, red, result, call, active >>
 AllIdle == \A t \in Thr : pc[t] = "idle"
 Reduce == /\ AllIdle /\ red < NT                                                 \* after the join, by the master
           /\ red' = red + 1
           /\ result' = (IF Bug = "noreduce" /\ red + 1 = 1 THEN result ELSE result + acc[red + 1])
-          /\ UNCHANGED << pc, z, incs, rd, cache, lock, row, cnt, ins, next, cur, done, iolock, pos, got, acc, tmp >>
-Finished == AllIdle /\ red = NT
+          /\ UNCHANGED << pc, z, incs, rd, cache, lock, row, cnt, ins, next, cur, done, iolock, pos, got, acc, tmp, call, active >>
+Reduced == AllIdle /\ red = NT
+\* the next call on the same objects, with any number of active threads; accumulators start from zero
+\* (Bug "staleacc": only the accumulators of the threads that will be active are cleared)
+StartCall == /\ Reduced /\ call < NC
+             /\ call' = call + 1
+             /\ \E a \in Thr :
+                  /\ active' = a
+                  /\ pc' = [t \in Thr |-> IF t <= a THEN "take" ELSE "idle"]
+                  /\ acc' = [t \in Thr |-> IF Bug = "staleacc" /\ t > a THEN acc[t] ELSE 0]
+             /\ next' = 1 /\ done' = [i \in Items |-> 0] /\ red' = 0 /\ result' = 0
+             /\ UNCHANGED << z, incs, rd, cache, lock, row, cnt, ins, cur, iolock, pos, got, tmp >>
+Finished == Reduced /\ call = NC
 Terminating == Finished /\ UNCHANGED vars
 
 Thread(t) == \/ ReadFlag(t) \/ EnterCritical(t) \/ RecheckFlag(t) \/ Fill1(t) \/ Fill2(t) \/ SetFlag(t) \/ LeaveCritical(t) \/ UseTable(t)
              \/ Take(t) \/ Seek(t) \/ ReadIO(t) \/ LockLookup(t) \/ Find(t) \/ Compute(t) \/ LockInsert(t) \/ Count(t) \/ Insert(t)
              \/ Accumulate(t) \/ Accumulate2(t)
-Next == (\E t \in Thr : Thread(t)) \/ Reduce \/ Terminating
+Next == (\E t \in Thr : Thread(t)) \/ Reduce \/ StartCall \/ Terminating
 Spec == Init /\ [][Next]_vars
 \* weak fairness of every thread and of the master: nothing stronger is assumed of the OpenMP runtime
-FairSpec == Spec /\ (\A t \in Thr : WF_vars(Thread(t))) /\ WF_vars(Reduce)
+FairSpec == Spec /\ (\A t \in Thr : WF_vars(Thread(t))) /\ WF_vars(Reduce) /\ WF_vars(StartCall)
 
 \* ---------------------------------------------------------------- the property
 \* "at most one process inside [the critical section]"
@@ -142,7 +159,12 @@ InvIO == \A t \in Thr : pc[t] \in {"lockL", "find", "compute", "lockI", "count",
 InvItems == /\ \A i \in Items : done[i] <= 1
             /\ AllIdle => \A i \in Items : done[i] = 1
 \* "result independent of assignment" (= the single-thread result; integers: no rounding in the model)
-InvResult == Finished => result = Expected
+InvResult == Reduced => result = Expected
+\* "the result equals the sum over the items of THIS call only": when the reduction starts, the accumulators hold
+\* exactly the contributions of this call - nothing left over from an earlier call (in any slot, active or not)
+RECURSIVE SumAcc(_)
+SumAcc(t) == IF t = 0 THEN 0 ELSE acc[t] + SumAcc(t - 1)
+InvThisCallOnly == (AllIdle /\ red = 0) => (SumAcc(NT) = Expected /\ \A t \in Thr : t > active => acc[t] = 0)
 \* no lock is left behind
 InvLocksFree == AllIdle => (incs = {} /\ iolock = 0 /\ \A k \in Keys : lock[k] = 0)
 \* termination under weak fairness (checked with SPECIFICATION FairSpec, never under a state constraint)
